@@ -12,7 +12,7 @@ from mc.result import Result
 PROPERTY = 'C19'
 LEVEL = 'model_checking'
 CHUNK = 8
-RULE = ('place of the process start (19 places: run/$/% in setup, before-assert, assert, cleanup; -stdout-from in file / stdin = / env / equals; run text transformer, '
+RULE = ('place of the process start (28 places: run/$/% in setup, before-assert, assert, cleanup; -stdout-from in file / stdin = / env / equals; run text transformer, '
         'run text matcher, run file matcher; the action to check under the command-line, shell, file-interpreter and source-interpreter forms) x duration of the '
         'child relative to the timeout in force {T-1, T, T+1, never ends, never ends and ignores SIGTERM} x timeout history {default only, set before (T=1, 5), set after, none before, T then none, '
         'none then T, set in an earlier phase, T then T2}; lifecycle states (running, timed-out, cleanup, ended) x place are the graph; plus a real-process slice '
@@ -46,6 +46,15 @@ PLACES = {
     'assert-run-text-matcher': (('assert',), {'assert': ['stdout ( run % P )']}),
     'assert-run-file-matcher': (('assert',), {'setup': ['file f.txt'], 'assert': ['exists f.txt : ( run % P )']}),
     'assert-equals-stdout-from': (('assert',), {'assert': ['stdout ! equals -stdout-from % P']}),
+    'assert-exit-code-from': (('assert',), {'assert': ['exit-code -from % P\n   == 0']}),
+    'assert-stdout-from': (('assert',), {'assert': ['stdout -from % P\n   ! is-empty']}),
+    'setup-env-of-act': (('setup',), {'setup': ['env -of act V = -stdout-from % P']}),
+    'setup-env-of-non-act': (('setup',), {'setup': ['env -of !act V = -stdout-from % P']}),
+    'before-assert-env': (('before-assert',), {'before-assert': ['env V = -stdout-from % P']}),
+    'setup-dir-file-stdout-from': (('setup',), {'setup': ['dir dd = {\n file x.txt = -stdout-from % P\n}']}),
+    'act-stdin-from-program': (('act', 'setup'), {'act': ['% atc\n   -stdin -stdout-from % P']}),
+    'setup-program-symbol': (('setup',), {'setup': ['def program XS = % P', 'run @ XS arg']}),
+    'cleanup-file-stdout-from': (('cleanup',), {'cleanup': ['file cl.txt = -stdout-from % P']}),
     'cleanup-shell': (('cleanup',), {'cleanup': ['$ P']}),
     'cleanup-run': (('cleanup',), {'cleanup': ['run % P']}),
 }
